@@ -255,7 +255,10 @@ func repeating(symbols []pr.NamedString, value int) (string, bool) {
 	if len(symbols) == 0 {
 		return "", false
 	}
-	return symbol(symbols[(value-1)%len(symbols)]), true
+	// mathematical modulo: the value may be zero or negative
+	L := len(symbols)
+	index := ((value-1)%L + L) % L
+	return symbol(symbols[index]), true
 }
 
 // Implement the algorithm for `type: non-repeating`.
